@@ -7,6 +7,7 @@ CONSTANTS
   DeepDepth = 1
   HierDepth = 3
   XDepth = 1
+  Wide = FALSE
   EmitCases = FALSE
 INIT Init
 NEXT Next
